@@ -105,12 +105,34 @@ def check_roundtrip(case: Dict[str, Any]) -> Tuple[List[Tuple[str, str]], Dict[s
             from sphinx.util.inventory import InventoryFile
             sinv = InventoryFile.loads(data, uri=BASE)
             sgot: Dict[str, str] = {}
+            styp: Dict[str, str] = {}
             for typ, entries in sinv.data.items():
                 for n, item in entries.items():
                     if n in sgot:
                         out.append(('duplicate-entry', 'Sphinx sees %s under two types' % n))
                     sgot[n] = item.uri
+                    styp[n] = typ
             out.extend(_cmp('Sphinx', want, sgot))
+            # read by Sphinx, an entry sits under the role of what it is (a :py:meth: reference only looks among methods):
+            # modules under py:module, classes under py:class/py:exception, functions of a class under one of the method roles,
+            # other functions under py:function
+            from pydoctor import model as _model
+            for n, typ in sorted(styp.items()):
+                o = s.allobjects.get(n)
+                if o is None:
+                    continue
+                if isinstance(o, _model.Module):
+                    ok = typ == 'py:module'
+                elif isinstance(o, _model.Class):
+                    ok = typ in ('py:class', 'py:exception')
+                elif isinstance(o, _model.Function):
+                    in_class = isinstance(o.parent, _model.Class)
+                    ok = typ in (('py:method', 'py:classmethod', 'py:staticmethod') if in_class else ('py:function',))
+                else:
+                    ok = typ in ('py:attribute', 'py:data', 'py:property')
+                if not ok:
+                    out.append(('entry-role', 'Sphinx finds %s (%s%s) under the role %s' % (n, type(o).__name__, ' in a class' if isinstance(o.parent, _model.Class) else '', typ)))
+                    break
         except Exception as e:
             out.append(('sphinx-cannot-load', 'sphinx.util.inventory cannot load the inventory: %s: %s' % (type(e).__name__, e)))
     seen = set()
